@@ -86,6 +86,18 @@ def handle : List String → Option String
     else
       let res := extract ss doc
       some (if res.isEmpty then "-" else " | ".intercalate (res.map (fun v => " ".intercalate (showV v))))
+  | "ptext" :: text :: toks => do
+    -- the path as text: the model's builder, then the walk (what CreatePath(text).Extract(doc) must give)
+    let runes ← if text == "-" then some [] else parseRunes text
+    let (doc, rest) ← parseV (2 * toks.length + 4) toks
+    if rest != [] then none
+    else
+      match build runes with
+      | .ok ss =>
+        let res := extract ss doc
+        some (if res.isEmpty then "-" else " | ".intercalate (res.map (fun v => " ".intercalate (showV v))))
+      | .err => some "err"
+      | .panic => some "panic"
   | _ => none
 
 end GoJson.Drv.C20
